@@ -978,7 +978,53 @@ def functional_contracts():
                              'selector(out[k], %s[k]))' % S_,
                              'forall(range(0, len(out)), lambda k: '
                              'pulls[k] == k)'])])
+    # accumulate without a seed: the first element is the first result
+    c('accumulate', name='queries.accumulate/no-seed',
+      params=dict(collection=IT, selector=TFunc(2), seed=NV),
+      track_pulls='collection',
+      raises={'TypeError': 'len(%s) == 0' % S_},
+      ensures=['len(%s) >= 1 and len(out) == len(%s)' % (S_, S_),
+               'out[0] == %s[0]' % S_,
+               'forall(range(1, len(%s)), lambda k: out[k] == '
+               'selector(out[k - 1], %s[k]))' % (S_, S_),
+               'forall(range(0, len(out)), lambda k: pulls[k] == k + 1)'],
+      loops=[dict(anchor='for x in it', index='n',
+                  invariant=['len(out) == n + 1', 'out[0] == %s[0]' % S_,
+                             'total == out[n]',
+                             'forall(range(1, n + 1), lambda k: out[k] == '
+                             'selector(out[k - 1], %s[k]))' % S_,
+                             'forall(range(0, len(out)), lambda k: '
+                             'pulls[k] == k + 1)'])], native=False)
+    # ---- selectMany: the rows' projections, flattened one level, in order;
+    # every result is emitted by the row pulled last (nothing pulled ahead)
+    ITEMS = 'ufn("py.iteritems", selector(%s[%%s]), ret="Arr")' % S_
+    ROWS = ('forall(range(0, len(out)), lambda k: 1 <= pulls[k] and '
+            'pulls[k] <= %s)')
+    MONO = 'forall(range(1, len(out)), lambda k: pulls[k - 1] <= pulls[k])'
+    ROW = 'selector(%s[pulls[k] - 1])' % S_
+    SCALAR = ('forall(range(0, len(out)), lambda k: implies(not ('
+              'isinstance(%s, "Iterable") and not isinstance(%s, "str") and '
+              'not isinstance(%s, "Mapping")), out[k] == %s))' % (
+                  ROW, ROW, ROW, ROW))
+    c('select_many', name='queries.select_many/streams',
+      params=dict(collection=IT, selector=TFunc(1)),
+      track_pulls='collection',
+      ensures=[ROWS % ('len(%s)' % S_), MONO, 'SRC.pos == len(%s)' % S_,
+               # a scalar projection is the row's only result
+               SCALAR],
+      loops=[dict(anchor='for item in collection', index='n',
+                  invariant=['SRC.pos == n', ROWS % 'n', MONO,
+                             SCALAR])],
+      serves=('C13', 'C14'), native=False)
     return cs
+
+
+def setup_functional(world):
+    setup_mem(world)
+    world.callee_contract(
+        'yaql.language.utils.is_iterable', result=TBool,
+        ensures=['result == (isinstance(obj, "Iterable") and not '
+                 'isinstance(obj, "str") and not isinstance(obj, "Mapping"))'])
 
 
 def setup_dicts(world):
